@@ -1182,6 +1182,8 @@ flatcc_builder_vt_ref_t flatcc_builder_create_vtable(flatcc_builder_t *B,
             return 0;
         }
     } else {
+        /* Keep the vtable aligned also after odd sized structs. */
+        push_iov(_pad, front_pad(B, vt_size, sizeof(voffset_t)));
         if (0 == (vt_ref = emit_front(B, &iov))) {
             return 0;
         }
